@@ -1,18 +1,15 @@
 From Coq Require Import List ZArith Bool Arith.
 Import ListNotations.
-From V Require Import Model.SnapOps Model.SeqAssign Model.DictAssign Corr.Util.
+From V Require Import Model.SnapOps Model.TreeAssign Model.DictAssign Corr.Util Corr.TreeAssignCorr.
 
-(* flags, old display (key, value, canonical text?), new value (key, value) in its order; observed: the entries of the rewritten
-   display in text order: key, value, is the value text canonical *)
-Definition case := (flags * list (Z * Z * bool) * list (Z * Z) * list (Z * Z * bool))%type.
-Definition obs_of (i : ditem) : Z * Z * bool :=
-  match i with DKeep k l => (k, l_val l, l_canon l) | DGen k v => (k, v, true) end.
-Definition triple_eqb (a b : Z * Z * bool) : bool :=
-  match a, b with (k, v, c), (k', v', c') => Z.eqb k k' && Z.eqb v v' && Bool.eqb c c' end.
+(* flags, old display (key, value tree), new value (key, value) in its order; observed: the entries of the rewritten display in text
+   order: key and what can be read from the text of the value *)
+Definition case := (flags * list (Z * tree) * list (Z * val) * list (Z * otree))%type.
+Definition obs_eqb (a b : Z * otree) : bool := Z.eqb (fst a) (fst b) && otree_eqb (snd a) (snd b).
 Definition ok (c : case) : bool :=
   match c with
   | (F, olds, news, observed) =>
-      let es := map (fun o => match o with (k, v, cn) => {| e_key := k; e_leaf := {| l_val := v; l_canon := cn |} |} end) olds in
-      list_eqb triple_eqb (map obs_of (dict_result F es news)) observed
+      let es := map (fun o => {| e_key := fst o; e_val := snd o |}) olds in
+      list_eqb obs_eqb (map (fun i : ditem => (fst i, shape (snd i))) (dict_result F es news)) observed
   end.
 Definition mismatches (l : list case) : list nat := mism ok l.
